@@ -9,7 +9,10 @@ CONSTANTS Ns, Bs
 
 VARIABLE z
 Init == z = [k |-> "start"]
-Next == z.k = "start" /\ \E n \in Ns, b \in Bs, all \in BOOLEAN, aa \in BOOLEAN, pre \in BOOLEAN : b <= n /\ (pre => aa) /\ z' = [k |-> "case", n |-> n, b |-> b, all |-> all, aa |-> aa, pre |-> pre]
+\* gap: the batch leaves out the middle delivery (accept_all of the 1st and 3rd held delivery), which is then rejected on its own:
+\* a batch disposition must not cover deliveries that are not in the batch
+Next == z.k = "start" /\ \E n \in Ns, b \in Bs, all \in BOOLEAN, aa \in BOOLEAN, pre \in BOOLEAN, gap \in BOOLEAN :
+           b <= n /\ (pre => aa) /\ (gap => (all /\ ~aa /\ b = 3)) /\ z' = [k |-> "case", n |-> n, b |-> b, all |-> all, aa |-> aa, pre |-> pre, gap |-> gap]
 Spec == Init /\ [][Next]_z
 
 Prefix(n, aa) == <<
@@ -24,7 +27,9 @@ T(k) == [e |-> "PFrame", perf |-> "transfer", ch |-> 3, f |-> [h |-> 6, did |-> 
 RECURSIVE Burst(_, _), Recvs(_), Rounds(_, _, _, _)
 Burst(k, n) == IF k >= n THEN <<>> ELSE <<T(k)>> \o Burst(k + 1, n)
 Recvs(b) == IF b = 0 THEN <<>> ELSE <<[e |-> "ARecv", l |-> "L2"]>> \o Recvs(b - 1)
-Disp(b, all) == IF all THEN <<[e |-> "ADispose", l |-> "L2", d |-> [i \in 1..b |-> i - 1], state |-> "accept", all |-> TRUE]>>
+Disp(b, all) == IF z.gap /\ b = 3 THEN <<[e |-> "ADispose", l |-> "L2", d |-> <<0, 2>>, state |-> "accept", all |-> TRUE],
+                                          [e |-> "ADispose", l |-> "L2", d |-> <<0>>, state |-> "reject", all |-> FALSE]>>
+                ELSE IF all THEN <<[e |-> "ADispose", l |-> "L2", d |-> [i \in 1..b |-> i - 1], state |-> "accept", all |-> TRUE]>>
                 ELSE [i \in 1..b |-> [e |-> "ADispose", l |-> "L2", d |-> <<0>>, state |-> "accept", all |-> FALSE]]
 Rounds(left, b, all, aa) == IF left <= 0 THEN <<>> ELSE
                             LET k == IF left < b THEN left ELSE b IN Recvs(k) \o (IF aa THEN <<>> ELSE Disp(k, all)) \o Rounds(left - k, b, all, aa)
